@@ -16,9 +16,13 @@ TYNAMES = [TY_XML_NAME[t] for t in TYS[1:]] + ["Unsigned16", "utf8string", "UTF8
 
 def gen_def(r):
     # codes and vendor ids overlap (1, 2, 3, 5, 10415 occur as both): keys such as (1, vendor 2) / (2, vendor 1) must stay apart
-    return dict(code=r.choice([1, 2, 3, 5, 1000, 0, 0xffffffff, 264, 10415]), vendor=r.choice([None, None, 1, 2, 3, 10415, 0, 0xffffffff]),
-                name=r.choice(NAMES), tyname=r.choice(TYNAMES[:16] if r.chance(4, 5) else TYNAMES).encode(), must=r.choice(MUSTS),
-                may=r.choice([None, b"M", b"P"]))
+    d = dict(code=r.choice([1, 2, 3, 5, 1000, 0, 0xffffffff, 264, 10415]), vendor=r.choice([None, None, 1, 2, 3, 10415, 0, 0xffffffff]),
+             name=r.choice(NAMES), tyname=r.choice(TYNAMES[:16] if r.chance(4, 5) else TYNAMES).encode(), must=r.choice(MUSTS),
+             may=r.choice([None, b"M", b"P"]))
+    if r.chance(1, 4):
+        # enumeration items listed under whatever type the definition has (documentation: the type attribute is the type)
+        d["items"] = [(1, b"ONE"), (2, b"TWO")][: r.range(1, 2)]
+    return d
 
 
 def gen_doc(r):
@@ -95,7 +99,7 @@ def check_C14(chk, tier, seed):
             for n in APPN + [b"Nope"]:
                 qs.append(f"APP {xb(n)}")
                 want.append(("app", hx(mm.apps[n]) if n in mm.apps else "none"))
-            for n in CMDN + [b"Nope"]:
+            for n in CMDN + [b"Nope", b"CC", b"AA", b"X"]:
                 qs.append(f"CMD {xb(n)}")
                 want.append(("cmd", hx(mm.cmds[n]) if n in mm.cmds else "none"))
             lines.append(("Q", f"Q {did} {len(qs)} " + " ".join(qs), (want, len(ops), sum(1 for k in mm.avps) )))
@@ -322,6 +326,16 @@ def check_C15(chk, tier, seed):
                 data = SAMPLE_DATA[base]
                 cases.append(f"X {did} {xb(one_avp_frame(5000, wire_v, data))}")
                 expect.append(("scope", ty if scope == wire_v else None, tyname, scope, wire_v))
+    # the same for codes of the RADIUS attribute space (1 .. 255) and its edge: a key is (code, vendor) there as everywhere else
+    for c in (1, 2, 200, 255, 256):
+        for scope in (None, 10415):
+            did = f"t{k}"
+            k += 1
+            apps = [dict(name=b"GenApp", id=4, cmds=[], avps=[dict(code=c, vendor=scope, name=b"Low", tyname=b"Unsigned32", must=None)])]
+            prelude.append(dict_line(did, [load_toks(gen_xml(apps), apps)]))
+            for wire_v in (None, 10415, 77):
+                cases.append(f"X {did} {xb(one_avp_frame(c, wire_v, SAMPLE_DATA['u32']))}")
+                expect.append(("scope", "u32" if scope == wire_v else None, f"Unsigned32 at code {c}", scope, wire_v))
     # one document declaring the same code in two scopes (vendor-less and vendor v, or v and w), in both orders: each wire
     # AVP is typed by the entry of exactly its pair, the third scope is refused
     pairs = [("u32", "utf"), ("oct", "u64"), ("ip4", "time"), ("grp", "en"), ("i64", "ip6")]
@@ -728,7 +742,9 @@ def check_C16(chk, tier, seed):
         start, ops = gen.gen_history(r, eng.dicts[did], maxops=5, depth=2)
         ops = [o for o in ops if not (o[0] == "ADDNAME" and eng.dicts[did] and not any(d["name"] == o[1] for d in eng.dicts[did].defs))]
         pos = r.range(0, len(ops))
-        bad = ("ADDNAME", r.choice([b"Does-Not-Exist", b"", b"session-id", b"Session-Id ", b" Session-Id", b"T-u32x", r.bytes(4).hex().encode()]),
+        bad = ("ADDNAME", r.choice([b"Does-Not-Exist", b"", b"session-id", b"Session-Id ", b" Session-Id", b"T-u32x", r.bytes(4).hex().encode(),
+                                    b"N" * 63 + "\u00e9".encode(), b"N" * 62 + "\u20ac".encode() + b"x", b"M" * 31 + "\u00e9".encode() + b"tail", b"L" * 200,
+                                    "\u00e9".encode() * 40, b"Multiple-Services-Credit-Control-Extension"]),
                ("L", gen.gen_leaf(r)) if r.chance(2, 3) else ("GN", []))
         cases.append(hist_line(did, start, ops[:pos] + [bad] + ops[pos:]))
         expect.append(("unknown", hist_line(did, start, ops), pos, did))
@@ -820,6 +836,18 @@ def check_C16(chk, tier, seed):
             chk.corr_break("observation differs from the model", dict(case=c, impl=short(im, 2000), model=short(mobs, 2000)))
         if i % max(1, len(cases) // 6) == 0:
             chk.sample(dict(case=c, impl=short(im, 160), P=ok))
+    # by-name additions that carry a message past what a Message Length field can hold (16 MiB): a declared name is found and its AVP
+    # appended like any other (whether the message can be ENCODED is C05's business), an unknown name fails and changes nothing
+    for (n, size) in ((2, 16), (2, 9 << 20), (20, 1 << 20)):
+        im = core.run_sharded([eng.harness, "codec"], eng.prelude, [f"GBIGN {n} {hx(size)}"], shards=1, timeout=300)[0]
+        chk.case(f"GBIGN {n} {size}", True)
+        chk.validated += 1
+        chk.count("by-name-past-16MiB" if n * size > (1 << 24) else "by-name-small")
+        padded = (8 + size + 3) // 4 * 4
+        want = f"GBIGN ok={n} unknown_failed=1 count={n} length={20 + n * padded}"
+        if im != want:
+            chk.violation("building AVPs by a declared name failed (or an unknown name did not fail, or the message does not hold exactly what was added) once the "
+                          "message had grown large", dict(case=f"GBIGN {n} {hx(size)}", impl=short(im, 300), expected=want))
     chk.rule = ("exhaustive over every name of the built-in, 3GPP and two generated dictionaries: built by name vs built from the explicit numbers of a live "
                 "definition with that name (observation incl. encoding must be identical); names whose key was re-declared under another name (no longer live) "
                 "must be refused; dictionaries dropped and re-created (same address) declaring a just-used name differently or not at all; plus generated histories with one unknown-name call inserted at a "
